@@ -29,7 +29,16 @@
     // `b > 0.0 && b <= 1.0`.  So the two assumed facts are consistent only if   !(t <= 0.0 || t > 1.0)  ==  (t > 0.0 && t <= 1.0)   for every t.
     // AS STATED (every f64) this is FALSE: t = NaN passes the range check of binomial_bounds::{lower_bound, upper_bound}.
     #[kani::proof]
-    fn shim_theta_out_of_range_as_stated() { let t: f64 = kani::any(); assert!((t <= 0.0 || t > 1.0) == !(t > 0.0 && t <= 1.0)); }
+    fn shim_theta_out_of_range_as_first_stated_demo() { let t: f64 = kani::any(); assert!((t <= 0.0 || t > 1.0) == !(t > 0.0 && t <= 1.0)); }   // NOT registered: fails at NaN (kept as the record of the corrected contract)
+    // the contract as it stands now in contracts/theta_bounds.rs, with theta_ok(t) := 0 < t <= 1, for EVERY f64:
+    //   theta_ok(t) ==> !r,   (!r && !nan(t)) ==> theta_ok(t),   nan(t) ==> !r
+    #[kani::proof]
+    fn shim_theta_out_of_range_contract() {
+        let t: f64 = kani::any(); let r = t <= 0.0 || t > 1.0; let ok = t > 0.0 && t <= 1.0;
+        if ok { assert!(!r); }
+        if !r && !t.is_nan() { assert!(ok); }
+        if t.is_nan() { assert!(!r); }
+    }
     // ... and it holds exactly off NaN
     #[kani::proof]
     fn shim_theta_out_of_range_not_nan() { let t: f64 = kani::any(); kani::assume(!t.is_nan()); assert!((t <= 0.0 || t > 1.0) == !(t > 0.0 && t <= 1.0)); }
@@ -55,8 +64,9 @@
         assert!(r < n);
     }
     // fi_map vx_load_threshold: `ensures r == n * 3 / 4` is stated WITHOUT a precondition, i.e. for every usize
+    // NOT registered (fails above 2^51): record of why the contract now has `requires n <= 2^51`
     #[kani::proof]
-    fn shim_fi_load_threshold_as_stated() {
+    fn shim_fi_load_threshold_unbounded_demo() {
         let n: usize = kani::any();
         let r = (n as f64 * 0.75) as usize;
         assert!((r as u128) == (n as u128) * 3 / 4);
